@@ -3,6 +3,7 @@ CONSTANTS
   Facet = "svc"
   PowDur = 2
   FixDur = 2
-  RestDur = 2
+  RestDur = 5
+  InstDur = 2
 INVARIANT TypeOK
 CHECK_DEADLOCK FALSE
